@@ -26,12 +26,13 @@ type Interp struct {
 	globalEnv                                                            *Env
 	evalFn                                                               *Object
 
-	events []string
-	rd     *Renderer
-	steps  int64
-	fuel   int64
-	depth  int
-	decls  map[*Node]*declInfo
+	events     []string
+	rd         *Renderer
+	steps      int64
+	fuel       int64
+	depth      int
+	decls      map[*Node]*declInfo
+	evalActive int // > 0 while eval code, or a function created by eval code, is running
 }
 
 const maxInterpDepth = 120
@@ -421,7 +422,7 @@ func (it *Interp) newArray(elems []Value) *Object {
 func (it *Interp) makeFunction(node *Node, env *Env, strict bool, kind FuncKind, home *Object) *Object {
 	f := it.newObject(it.FunctionProto)
 	f.class = "Function"
-	f.fn = &FuncData{kind: kind, node: node, env: env, strict: strict || node.Has(FStrict), home: home}
+	f.fn = &FuncData{kind: kind, node: node, env: env, strict: strict || node.Has(FStrict), home: home, fromEval: it.evalActive > 0}
 	n := 0
 	for _, p := range node.L {
 		if p.K == KRest || (p.K == KPatElem && p.B != nil) {
@@ -490,6 +491,10 @@ func (it *Interp) callFunction(f *Object, this Value, args []Value, newTarget *O
 		panic(&abort{"depth"})
 	}
 	defer func() { it.depth-- }()
+	if fd.fromEval {
+		it.evalActive++
+		defer func() { it.evalActive-- }()
+	}
 	if fd.kind == fnNative {
 		if fd.native == nil {
 			return Undefined
